@@ -58,6 +58,90 @@ Proof. intros v t H. left. exact H. Qed.
 Lemma newP_trans P h1 h2 h3 : newP P h1 h2 -> newP P h2 h3 -> newP P h1 h3.
 Proof. intros A B v t H. destruct (B v t H) as [H'|H']; auto. Qed.
 
+(* ---------------------------------------------------------------- operations on one generator slot, any set of cells P *)
+Definition slot_of (o : op) : option nat :=
+  match o with ONext q | OClose q | ODrain q => Some q | _ => None end.
+
+Lemma cnext_cown fuel d fresh h c : cown (fst (fst (fst (cnext fuel d fresh h c)))) = cown c.
+Proof. unfold cnext. destruct (search fuel d (unbind (ctrail c) h) fresh (cfr c) []); reflexivity. Qed.
+Lemma cdrain_cown fresh : forall m fuel d h c acc names,
+  cown (fst (fst (fst (fst (cdrain m fuel d fresh h c acc names))))) = cown c.
+Proof.
+  induction m as [|m IH]; intros fuel d h c acc names; cbn [cdrain]; [reflexivity|].
+  pose proof (cnext_cown fuel d fresh h c) as E.
+  destruct (cnext fuel d fresh h c) as [[[c1 h1] r] nm]. cbn [fst] in E.
+  destruct r; cbn [fst]; try exact E. rewrite IH. exact E.
+Qed.
+
+Section AnyCells.
+Variable P : nat -> bool.
+
+Lemma cdrain_frame fresh : (forall k, P (fresh k) = true) ->
+  forall m fuel d h c acc names c' h' answers err names',
+  closed P h -> cgood P c ->
+  cdrain m fuel d fresh h c acc names = (c', h', answers, err, names') ->
+  cdrain m fuel d fresh (fP P h) c acc names = (c', fP P h', answers, err, names')
+  /\ fN P h' = fN P h /\ cgood P c' /\ closed P h' /\ newP P h h'.
+Proof.
+  intros Hf. induction m as [|m IH]; intros fuel d h c acc names c' h' answers err names' C G E.
+  - cbn [cdrain] in *. inversion E; subst. refine (conj _ (conj _ (conj _ (conj _ _)))); auto using newP_refl.
+  - cbn [cdrain] in *.
+    destruct (cnext fuel d fresh h c) as [[[c1 h1] r] nm] eqn:E1.
+    destruct (@cnext_frame P fresh Hf fuel d _ _ _ _ _ _ C G E1) as [A [EN [G1 [C1 N1]]]].
+    rewrite A. destruct r as [vals| |k].
+    + destruct (IH fuel d h1 c1 (vals :: acc) (nm ++ names) _ _ _ _ _ C1 G1 E) as [A2 [EN2 [G2 [C2 N2]]]].
+      split; [exact A2|]. split; [congruence|]. split; [exact G2|]. split; [exact C2|].
+      eapply newP_trans; eauto.
+    + inversion E; subst. refine (conj _ (conj _ (conj _ (conj _ _)))); auto.
+    + inversion E; subst. refine (conj _ (conj _ (conj _ (conj _ _)))); auto.
+Qed.
+
+
+Lemma cstart_good' ow nm args : Forall (tin P) args -> cgood P (cstart ow nm args).
+Proof.
+  intros F. unfold cstart, cgood. cbn [cargs cfr ctrail].
+  split; [exact F|]. split; [|apply good_nil].
+  constructor; [|constructor]. constructor; [apply good_nil|].
+  constructor; [|constructor]. exact F.
+Qed.
+
+Variables n i : nat.
+
+(* next / close / drain of the generator in slot q, when that generator is over P and allocates in P *)
+Lemma qop_frame fuel o q e h e' h' ob : slot_of o = Some q -> closed P h ->
+  (forall c, aget Nat.eqb q (cursors e) = Some c -> cgood P c /\ forall k, P (ccell n i (cown c) k) = true) ->
+  estep fuel n i o e h = (e', h', ob) ->
+  estep fuel n i o e (fP P h) = (e', fP P h', ob)
+  /\ fN P h' = fN P h /\ closed P h' /\ newP P h h'
+  /\ edb e' = edb e /\ nstart e' = nstart e
+  /\ match aget Nat.eqb q (cursors e) with
+     | None => e' = e
+     | Some c => exists c', cursors e' = aset Nat.eqb q c' (cursors e) /\ cgood P c' /\ cown c' = cown c
+     end.
+Proof.
+  intros So C Hc E.
+  destruct o as [nm|app nm args|nm args|nm ar rows|ov script| |q0 nm args|q0|q0|q0]; try discriminate;
+    inversion So; subst q0; cbn [estep] in *;
+    (destruct (aget Nat.eqb q (cursors e)) as [c|] eqn:Eq;
+      [destruct (Hc c eq_refl) as [G Hf]
+      |inversion E; subst; repeat (split; [solve [auto using newP_refl]|]); reflexivity]).
+  - pose proof (cnext_cown fuel (edb e) (ccell n i (cown c)) h c) as Ow.
+    destruct (cnext fuel (edb e) (ccell n i (cown c)) h c) as [[[c1 h1] r] nm] eqn:E1. cbn [fst] in Ow.
+    destruct (@cnext_frame P _ Hf fuel (edb e) _ _ _ _ _ _ C G E1) as [A [EN [G1 [C1 N1]]]].
+    rewrite A. inversion E; subst. repeat (split; [solve [auto]|]). exists c1. auto.
+  - destruct (@cclose_frame P h c C G) as [A [EN [G1 [C1 N1]]]].
+    rewrite A. destruct (cclose h c) as [c1 h1] eqn:E1. cbn [fst snd] in *.
+    inversion E; subst. repeat (split; [solve [auto]|]). exists c1. split; [reflexivity|]. split; [exact G1|].
+    unfold cclose in E1. inversion E1; reflexivity.
+  - pose proof (cdrain_cown (ccell n i (cown c)) fuel fuel (edb e) h c [] []) as Ow.
+    destruct (cdrain fuel fuel (edb e) (ccell n i (cown c)) h c [] []) as [[[[c1 h1] answers] err] nm] eqn:E1.
+    cbn [fst] in Ow.
+    destruct (cdrain_frame _ Hf _ _ _ _ _ _ _ _ _ _ _ _ C G E1) as [A [EN [G1 [C1 N1]]]].
+    rewrite A. inversion E; subst. repeat (split; [solve [auto]|]). exists c1. auto.
+Qed.
+
+End AnyCells.
+
 Section OneEngine.
 Variables n i : nat.
 Hypothesis Hi : i < n.
@@ -95,26 +179,6 @@ Proof.
   rewrite E. destruct (unify_arrays UF h args (map (rn fresh) f)); reflexivity.
 Qed.
 
-Lemma cdrain_frame fresh : (forall k, P (fresh k) = true) ->
-  forall m fuel d h c acc names c' h' answers err names',
-  closed P h -> cgood P c ->
-  cdrain m fuel d fresh h c acc names = (c', h', answers, err, names') ->
-  cdrain m fuel d fresh (fP P h) c acc names = (c', fP P h', answers, err, names')
-  /\ fN P h' = fN P h /\ cgood P c' /\ closed P h' /\ newP P h h'.
-Proof.
-  intros Hf. induction m as [|m IH]; intros fuel d h c acc names c' h' answers err names' C G E.
-  - cbn [cdrain] in *. inversion E; subst. refine (conj _ (conj _ (conj _ (conj _ _)))); auto using newP_refl.
-  - cbn [cdrain] in *.
-    destruct (cnext fuel d fresh h c) as [[[c1 h1] r] nm] eqn:E1.
-    destruct (@cnext_frame P fresh Hf fuel d _ _ _ _ _ _ C G E1) as [A [EN [G1 [C1 N1]]]].
-    rewrite A. destruct r as [vals| |k].
-    + destruct (IH fuel d h1 c1 (vals :: acc) (nm ++ names) _ _ _ _ _ C1 G1 E) as [A2 [EN2 [G2 [C2 N2]]]].
-      split; [exact A2|]. split; [congruence|]. split; [exact G2|]. split; [exact C2|].
-      eapply newP_trans; eauto.
-    + inversion E; subst. refine (conj _ (conj _ (conj _ (conj _ _)))); auto.
-    + inversion E; subst. refine (conj _ (conj _ (conj _ (conj _ _)))); auto.
-Qed.
-
 Lemma cstart_good ow nm args : cgood P (cstart ow nm (map (rn (ucell n i)) args)).
 Proof.
   unfold cstart, cgood. cbn [cargs cfr ctrail].
@@ -133,6 +197,21 @@ Lemma einv_set e q c : einv e -> cgood P c -> einv (with_cursors e (aset Nat.eqb
 Proof. intros I G. unfold einv. destruct e; simpl in *. apply Forall_aset; auto. Qed.
 
 (* the frame property of one operation of engine i *)
+Lemma qop_frame_eng fuel o q e h e' h' ob : slot_of o = Some q -> closed P h -> einv e ->
+  estep fuel n i o e h = (e', h', ob) ->
+  estep fuel n i o e (fP P h) = (e', fP P h', ob)
+  /\ fN P h' = fN P h /\ einv e' /\ closed P h' /\ newP P h h'.
+Proof.
+  intros So C I E.
+  assert (Hc : forall c, aget Nat.eqb q (cursors e) = Some c -> cgood P c /\ forall k, P (ccell n i (cown c) k) = true).
+  { intros c Hq. split; [exact (einv_get e q c I Hq)|apply P_ccell]. }
+  destruct (qop_frame P n i fuel o q e h e' h' ob So C Hc E) as [A [EN [C1 [N1 [_ [_ M]]]]]].
+  refine (conj A (conj EN (conj _ (conj C1 N1)))).
+  destruct (aget Nat.eqb q (cursors e)) as [c|].
+  - destruct M as [c' [Ec [G' _]]]. unfold einv. rewrite Ec. apply Forall_aset; auto.
+  - subst. exact I.
+Qed.
+
 Ltac fin5 := refine (conj _ (conj _ (conj _ (conj _ _)))).
 
 Theorem estep_frame fuel o e h e' h' ob : closed P h -> einv e ->
@@ -157,26 +236,9 @@ Proof.
       apply einv_bump. apply einv_set; auto. apply cstart_good.
     + inversion E; subst. fin5; auto using newP_refl.
       apply einv_bump. apply einv_set; auto. apply cstart_good.
-  - destruct (aget Nat.eqb q (cursors e)) as [c|] eqn:Eq.
-    + pose proof (einv_get e q c I Eq) as G.
-      destruct (cnext fuel (edb e) (ccell n i (cown c)) h c) as [[[c1 h1] r] nm] eqn:E1.
-      destruct (@cnext_frame P _ (P_ccell (cown c)) fuel (edb e) _ _ _ _ _ _ C G E1) as [A [EN [G1 [C1 N1]]]].
-      rewrite A. inversion E; subst. fin5; auto.
-      apply einv_with_atoms. apply einv_set; auto.
-    + inversion E; subst. fin5; auto using newP_refl.
-  - destruct (aget Nat.eqb q (cursors e)) as [c|] eqn:Eq.
-    + pose proof (einv_get e q c I Eq) as G.
-      destruct (@cclose_frame P h c C G) as [A [EN [G1 [C1 N1]]]].
-      rewrite A. destruct (cclose h c) as [c1 h1] eqn:E1. cbn [fst snd] in *.
-      inversion E; subst. fin5; auto. apply einv_set; auto.
-    + inversion E; subst. fin5; auto using newP_refl.
-  - destruct (aget Nat.eqb q (cursors e)) as [c|] eqn:Eq.
-    + pose proof (einv_get e q c I Eq) as G.
-      destruct (cdrain fuel fuel (edb e) (ccell n i (cown c)) h c [] []) as [[[[c1 h1] answers] err] nm] eqn:E1.
-      destruct (cdrain_frame _ (P_ccell (cown c)) _ _ _ _ _ _ _ _ _ _ _ _ C G E1) as [A [EN [G1 [C1 N1]]]].
-      rewrite A. inversion E; subst. fin5; auto.
-      apply einv_with_atoms. apply einv_set; auto.
-    + inversion E; subst. fin5; auto using newP_refl.
+  - apply (qop_frame_eng fuel (ONext q) q); auto.
+  - apply (qop_frame_eng fuel (OClose q) q); auto.
+  - apply (qop_frame_eng fuel (ODrain q) q); auto.
 Qed.
 
 (* noninterference form: two heaps that agree on the cells of engine i *)
